@@ -6,6 +6,7 @@ mod gcunit;
 mod manicheck;
 mod manifest;
 mod shim;
+mod tamper;
 
 fn main() {
     vcore::main_with(
